@@ -9912,3 +9912,384 @@ func E11QuadratureCoversArc(c *core.Ctx, r *core.Report) {
 	r.Count("E11.quadrature-returns", n)
 	r.Floor("E11.quadrature-returns", 1)
 }
+
+// E11ClampAfterSign: an upper clamp of a size parameter bounds its magnitude only after the sign is taken off.
+func E11ClampAfterSign(c *core.Ctx, r *core.Report) {
+	r.Rule("E11.clamp-after-sign", "shape constructors accept a signed size (a negative corner radius asks for the concave variant) and bound it by the sides: within one function, every `v = math.Min(v, E)` on a local v that the same function also strips of its sign (`v = -v`, `v = math.Abs(v)`) comes after every such sign assignment. math.Min never clamps a negative number, so the clamp placed before the sign test lets an oversized negative value through at full magnitude and the outline overshoots the sides")
+	p := c.MustPkg("")
+	info := p.TypesInfo
+	n := 0
+	for _, f := range p.Syntax {
+		for _, d := range f.Decls {
+			fd, ok := d.(*ast.FuncDecl)
+			if !ok || fd.Body == nil {
+				continue
+			}
+			type site struct {
+				pos  token.Pos
+				text string
+			}
+			signs := map[types.Object][]site{}
+			clamps := map[types.Object][]site{}
+			ast.Inspect(fd.Body, func(m ast.Node) bool {
+				as, ok := m.(*ast.AssignStmt)
+				if !ok || as.Tok != token.ASSIGN || len(as.Lhs) != 1 || len(as.Rhs) != 1 {
+					return true
+				}
+				id, ok := as.Lhs[0].(*ast.Ident)
+				if !ok {
+					return true
+				}
+				o := core.ObjOf(info, id)
+				isV := func(e ast.Expr) bool {
+					x, ok := core.Unparen(e).(*ast.Ident)
+					return ok && core.ObjOf(info, x) == o
+				}
+				rhs := core.Unparen(as.Rhs[0])
+				if u, ok := rhs.(*ast.UnaryExpr); ok && u.Op == token.SUB && isV(u.X) {
+					signs[o] = append(signs[o], site{as.Pos(), types.ExprString(as.Lhs[0]) + " = " + types.ExprString(rhs)})
+				}
+				if name, call := core.MathFunc(info, rhs); call != nil {
+					switch {
+					case name == "Abs" && len(call.Args) == 1 && isV(call.Args[0]):
+						signs[o] = append(signs[o], site{as.Pos(), types.ExprString(as.Lhs[0]) + " = " + types.ExprString(rhs)})
+					case name == "Min" && len(call.Args) == 2 && (isV(call.Args[0]) != isV(call.Args[1])):
+						clamps[o] = append(clamps[o], site{as.Pos(), types.ExprString(as.Lhs[0]) + " = " + types.ExprString(rhs)})
+					}
+				}
+				return true
+			})
+			for o, cl := range clamps {
+				if len(signs[o]) == 0 {
+					continue
+				}
+				for i, cs := range cl {
+					n++
+					key := fmt.Sprintf("%s|%s|clamp %d", "canvas."+core.FuncName(fd), o.Name(), i+1)
+					late := ""
+					for _, s := range signs[o] {
+						if cs.pos < s.pos {
+							late = s.text
+						}
+					}
+					if late == "" {
+						r.OK("E11.clamp-after-sign", key, c.Pos(cs.pos), cs.text)
+					} else {
+						r.Fail("E11.clamp-after-sign", key, c.Pos(cs.pos), fmt.Sprintf("`%s` runs before the sign of %s is removed: math.Min leaves a negative %s untouched whatever its magnitude, so a negative value larger than the bound keeps its full size and the outline overshoots the sides it was to be bounded by", cs.text, o.Name(), o.Name()))
+					}
+				}
+			}
+		}
+	}
+	r.Count("E11.clamp-after-sign", n)
+	r.Floor("E11.clamp-after-sign", 4)
+}
+
+// E11SVGKeywordInitial: a keyword-valued, inherited property can be set back to its initial value.
+func E11SVGKeywordInitial(c *core.Ctx, r *core.Report) {
+	r.Rule("E11.svg-keyword-initial", "svgParser.setAttribute reads the keyword-valued presentation attributes by an if-chain on the value, each branch calling one Context setter. These properties are inherited — the state set on a group is still current when a child's attributes are read — so a child that names the initial value must get it: among the branches of every such chain, one passes the value DefaultStyle holds for the field the setter writes (the same constant, or a composite literal of the same type as the default variable's). A chain that leaves out the initial keyword because 'that is the default anyway' lets the parent's value through")
+	p := c.MustPkg("")
+	info := p.TypesInfo
+	sa := core.MustFuncDecl(p, "svgParser.setAttribute")
+	r.Func("canvas.svgParser.setAttribute")
+	// the initial values
+	defaults := map[string]ast.Expr{}
+	for _, f := range p.Syntax {
+		for _, d := range f.Decls {
+			gd, ok := d.(*ast.GenDecl)
+			if !ok {
+				continue
+			}
+			for _, sp := range gd.Specs {
+				vs, ok := sp.(*ast.ValueSpec)
+				if !ok || len(vs.Names) != 1 || vs.Names[0].Name != "DefaultStyle" || len(vs.Values) != 1 {
+					continue
+				}
+				if cl, ok := vs.Values[0].(*ast.CompositeLit); ok {
+					for _, el := range cl.Elts {
+						if kv, ok := el.(*ast.KeyValueExpr); ok {
+							if k, ok := kv.Key.(*ast.Ident); ok {
+								defaults[k.Name] = kv.Value
+							}
+						}
+					}
+				}
+			}
+		}
+	}
+	if len(defaults) == 0 {
+		panic(core.Infra("DefaultStyle composite literal not found"))
+	}
+	// head: what a value is, up to the parameters of a composite
+	var head func(e ast.Expr) string
+	head = func(e ast.Expr) string {
+		e = core.Unparen(e)
+		switch x := e.(type) {
+		case *ast.CompositeLit:
+			if tv, ok := info.Types[x]; ok {
+				return "type:" + types.TypeString(tv.Type, func(*types.Package) string { return "" })
+			}
+		case *ast.Ident:
+			o := core.ObjOf(info, x)
+			if v, ok := o.(*types.Var); ok && v.Parent() == p.Types.Scope() {
+				// a package-level variable initialised by a composite literal stands for that type
+				for _, f := range p.Syntax {
+					for _, d := range f.Decls {
+						if gd, ok := d.(*ast.GenDecl); ok {
+							for _, sp := range gd.Specs {
+								if vs, ok := sp.(*ast.ValueSpec); ok {
+									for i, nm := range vs.Names {
+										if info.Defs[nm] == o && i < len(vs.Values) {
+											if _, ok := core.Unparen(vs.Values[i]).(*ast.CompositeLit); ok {
+												return head(vs.Values[i])
+											}
+										}
+									}
+								}
+							}
+						}
+					}
+				}
+			}
+			if o != nil {
+				return "obj:" + o.Name()
+			}
+		}
+		return "expr:" + types.ExprString(e)
+	}
+	// setter -> Style field
+	fieldOf := func(setter *types.Func) string {
+		recv := setter.Type().(*types.Signature).Recv()
+		if recv == nil {
+			return ""
+		}
+		rt := recv.Type()
+		if pt, ok := rt.(*types.Pointer); ok {
+			rt = pt.Elem()
+		}
+		tn, ok := rt.(*types.Named)
+		if !ok {
+			return ""
+		}
+		fd := core.FuncDecl(p, tn.Obj().Name()+"."+setter.Name())
+		if fd == nil || fd.Body == nil || fd.Type.Params.NumFields() != 1 {
+			return ""
+		}
+		param := info.Defs[fd.Type.Params.List[0].Names[0]]
+		field := ""
+		ast.Inspect(fd.Body, func(m ast.Node) bool {
+			as, ok := m.(*ast.AssignStmt)
+			if !ok || len(as.Lhs) != 1 || len(as.Rhs) != 1 {
+				return true
+			}
+			if id, ok := core.Unparen(as.Rhs[0]).(*ast.Ident); ok && core.ObjOf(info, id) == param {
+				if sel, ok := as.Lhs[0].(*ast.SelectorExpr); ok {
+					field = sel.Sel.Name
+				}
+			}
+			return true
+		})
+		return field
+	}
+	n := 0
+	ast.Inspect(sa.Body, func(m ast.Node) bool {
+		cc, ok := m.(*ast.CaseClause)
+		if !ok || len(cc.List) == 0 {
+			return true
+		}
+		label := ""
+		if v := core.ConstVal(info, cc.List[0]); v != nil && v.Kind() == constant.String {
+			label = constant.StringVal(v)
+		} else {
+			return true
+		}
+		// calls made under a test of a value against a string constant
+		type branch struct {
+			kw  string
+			arg ast.Expr
+		}
+		bySetter := map[*types.Func][]branch{}
+		var order []*types.Func
+		var visit func(s ast.Stmt)
+		visit = func(s ast.Stmt) {
+			is, ok := s.(*ast.IfStmt)
+			if !ok {
+				return
+			}
+			kw := ""
+			if be, ok := core.Unparen(is.Cond).(*ast.BinaryExpr); ok && be.Op == token.EQL {
+				for _, side := range []ast.Expr{be.X, be.Y} {
+					if v := core.ConstVal(info, side); v != nil && v.Kind() == constant.String {
+						kw = constant.StringVal(v)
+					}
+				}
+			}
+			if kw != "" {
+				for _, bs := range is.Body.List {
+					es, ok := bs.(*ast.ExprStmt)
+					if !ok {
+						continue
+					}
+					call, ok := es.X.(*ast.CallExpr)
+					if !ok || len(call.Args) != 1 {
+						continue
+					}
+					if f := core.CalleeOf(info, call); f != nil && strings.HasPrefix(f.Name(), "Set") {
+						if _, seen := bySetter[f]; !seen {
+							order = append(order, f)
+						}
+						bySetter[f] = append(bySetter[f], branch{kw, call.Args[0]})
+					}
+				}
+			}
+			if is.Else != nil {
+				visit(is.Else)
+			}
+		}
+		for _, s := range cc.Body {
+			visit(s)
+		}
+		for _, f := range order {
+			bs := bySetter[f]
+			if len(bs) < 2 {
+				continue
+			}
+			field := fieldOf(f)
+			key := fmt.Sprintf("canvas.svgParser.setAttribute|case %q|%s", label, f.Name())
+			def, ok := defaults[field]
+			if field == "" || !ok {
+				r.Fail("E11.svg-keyword-initial", key, c.Pos(cc.Pos()), fmt.Sprintf("the Style field written by %s (found: %q) has no entry in DefaultStyle; the initial value cannot be read", f.Name(), field))
+				continue
+			}
+			n++
+			want := head(def)
+			got := ""
+			var kws []string
+			for _, b := range bs {
+				kws = append(kws, b.kw)
+				if head(b.arg) == want {
+					got = b.kw
+				}
+			}
+			if got != "" {
+				r.OK("E11.svg-keyword-initial", key, c.Pos(cc.Pos()), fmt.Sprintf("initial %s = %s set by keyword %q", field, types.ExprString(def), got))
+			} else {
+				r.Fail("E11.svg-keyword-initial", key, c.Pos(cc.Pos()), fmt.Sprintf("the keywords handled for %q (%s) never call %s with the initial value %s of Style.%s: the property is inherited, so an element inside a group that sets another value cannot return to the initial one, and the drawing read back differs from the document", label, strings.Join(kws, ", "), f.Name(), types.ExprString(def), field))
+			}
+		}
+		return true
+	})
+	r.Count("E11.svg-keyword-initial", n)
+	r.Floor("E11.svg-keyword-initial", 3)
+}
+
+// E11HexDigitPairs: the bytes of a hexadecimal colour are built from the right pairs of digits.
+func E11HexDigitPairs(c *core.Ctx, r *core.Report) {
+	r.Rule("E11.hex-digit-pairs", "Hex decodes #rgb, #rgba, #rrggbb and #rrggbbaa. In the branch for a length-N string every byte is `h[i]*16 + h[j]`: for the short forms (N = 3, 4) a digit is doubled, j = i; for the long forms (N = 6, 8) two neighbouring digits make one byte, i even and j = i+1. A byte built from digits of two different components (the alpha factor of #rgba read h[3]*16+h[0]) gives a colour that is not the one written and, for premultiplied output, channels larger than alpha")
+	p := c.MustPkg("")
+	info := p.TypesInfo
+	fd := core.MustFuncDecl(p, "Hex")
+	r.Func("canvas.Hex")
+	var digits types.Object // the local slice indexed by digit position
+	n := 0
+	idx := func(e ast.Expr) (types.Object, int, bool) {
+		ie, ok := core.Unparen(e).(*ast.IndexExpr)
+		if !ok {
+			return nil, 0, false
+		}
+		id, ok := core.Unparen(ie.X).(*ast.Ident)
+		if !ok {
+			return nil, 0, false
+		}
+		v := core.ConstVal(info, ie.Index)
+		if v == nil || v.Kind() != constant.Int {
+			return nil, 0, false
+		}
+		k, _ := constant.Int64Val(v)
+		return core.ObjOf(info, id), int(k), true
+	}
+	var lenOf func(cond ast.Expr) int
+	lenOf = func(cond ast.Expr) int {
+		be, ok := core.Unparen(cond).(*ast.BinaryExpr)
+		if !ok || be.Op != token.EQL {
+			return -1
+		}
+		for _, pair := range [][2]ast.Expr{{be.X, be.Y}, {be.Y, be.X}} {
+			if call, ok := core.Unparen(pair[0]).(*ast.CallExpr); ok {
+				if id, ok := call.Fun.(*ast.Ident); ok && id.Name == "len" {
+					if v := core.ConstVal(info, pair[1]); v != nil && v.Kind() == constant.Int {
+						k, _ := constant.Int64Val(v)
+						return int(k)
+					}
+				}
+			}
+		}
+		return -1
+	}
+	var visit func(is *ast.IfStmt)
+	visit = func(is *ast.IfStmt) {
+		N := lenOf(is.Cond)
+		if N > 0 {
+			k := 0
+			ast.Inspect(is.Body, func(m ast.Node) bool {
+				be, ok := m.(*ast.BinaryExpr)
+				if !ok || be.Op != token.ADD {
+					return true
+				}
+				for _, pair := range [][2]ast.Expr{{be.X, be.Y}, {be.Y, be.X}} {
+					mul, ok := core.Unparen(pair[0]).(*ast.BinaryExpr)
+					if !ok || mul.Op != token.MUL {
+						continue
+					}
+					var hi ast.Expr
+					for _, mp := range [][2]ast.Expr{{mul.X, mul.Y}, {mul.Y, mul.X}} {
+						if v := core.ConstVal(info, mp[1]); v != nil && v.Kind() == constant.Int {
+							if x, _ := constant.Int64Val(v); x == 16 {
+								hi = mp[0]
+							}
+						}
+					}
+					if hi == nil {
+						continue
+					}
+					o1, i, ok1 := idx(hi)
+					o2, j, ok2 := idx(pair[1])
+					if !ok1 || !ok2 || o1 != o2 {
+						continue
+					}
+					digits = o1
+					k++
+					n++
+					key := fmt.Sprintf("canvas.Hex|len %d|byte %d", N, k)
+					good := false
+					want := ""
+					if N <= 4 {
+						good = i == j && i < N
+						want = fmt.Sprintf("the digit at %d doubled", i)
+					} else {
+						good = i%2 == 0 && j == i+1 && j < N
+						want = fmt.Sprintf("digits %d and %d", i-i%2, i-i%2+1)
+					}
+					if good {
+						r.OK("E11.hex-digit-pairs", key, c.Pos(be.Pos()), types.ExprString(be))
+					} else {
+						r.Fail("E11.hex-digit-pairs", key, c.Pos(be.Pos()), fmt.Sprintf("in the branch for %d hexadecimal digits the byte `%s` takes its high digit from position %d and its low digit from position %d; a byte of this form is %s. The value decoded is not the one written", N, types.ExprString(be), i, j, want))
+					}
+					return false
+				}
+				return true
+			})
+		}
+		if e, ok := is.Else.(*ast.IfStmt); ok {
+			visit(e)
+		}
+	}
+	for _, s := range fd.Body.List {
+		if is, ok := s.(*ast.IfStmt); ok {
+			visit(is)
+		}
+	}
+	_ = digits
+	r.Count("E11.hex-digit-pairs", n)
+	r.Floor("E11.hex-digit-pairs", 16)
+}
